@@ -278,10 +278,19 @@ func (s *State) callContract(spec *FuncSpec, callee *ssa.Function, c *ssa.CallCo
 	}
 	// frame
 	if !spec.HasMod {
-		s.checkFrameAll(where, "call of "+name+" (contract without modifies)")
+		if !spec.Callback {
+			s.checkFrameAll(where, "call of "+name+" (contract without modifies)")
+		} else {
+			s.eng.assumptionsUsed["effects of user callbacks ("+name+") are not attributed to the calling library function's frame"] = true
+		}
 		s.havocAll()
 	} else {
 		for _, it := range s.evalFrameItems(spec.Modifies, env) {
+			if ct, isChan := s.eng.chanGhostT[it.ghost]; it.ghost != "" && isChan {
+				s.ghostGet(it.ghost, ct)
+				s.ghost[it.ghost] = s.freshVal("ghost:"+it.ghost, ct)
+				continue
+			}
 			if it.ghost != "" {
 				t := env.resolveTypeIn(s.eng.ghostDecls[it.ghost], s.eng.ghostPkg[it.ghost])
 				s.ghostGet(it.ghost, t)
